@@ -8,6 +8,10 @@
 //          that needs escaping, an ordinary run with one special character, or alternating blocks.  A test may also fail
 //          by a real STRCMP_EQUAL of two long strings (the message built by the framework holds both operands).
 //          Group names are never empty (DESIGN A.5); one TEST name in twelve is the empty string.
+//          Every shell owns exact-size heap copies of its group name, test name and file name (equal text never means equal
+//          address).  A run may have 0..2 group filters and 0..2 name filters in effect (substring / strict / inverted /
+//          inverted strict; values mostly the program's own names or parts of them), set on the registry or through the
+//          runner's -g/-sg/-xg/-xsg/-n/-sn/-xn/-xsn.
 //          The registry is run 1..3 times against the SAME output object with a fresh TestResult per pass (what
 //          CommandLineTestRunner does for -rN), the order optionally reversed or re-shuffled before a pass; one case in three
 //          goes through a real CommandLineTestRunner subclass with argv "-oteamcity [-rN] [-ri] [-b] [-sSEED]".
@@ -20,6 +24,7 @@
 #include "common.h"
 #include "CppUTest/TeamCityTestOutput.h"
 #include "CppUTest/CommandLineTestRunner.h"
+#include "CppUTest/TestFilter.h"
 #include <memory>
 #include <algorithm>
 
@@ -41,11 +46,24 @@ struct CaseM {
     bool viaRunner = false;            // through CommandLineTestRunner (-rN ...) instead of the harness's own loop
     uint32_t op[3] = {0, 0, 0};        // before pass p: 0 keep, 1 reverse, 2 shuffle (runner: op[0] only; -b once, -s before every pass)
     uint32_t shuffleSeed = 1;
+    struct Filter { bool strict = false, invert = false; std::string value; };
+    std::vector<Filter> groupFilters, nameFilters;   // a test is selected when (no group filter or one of them matches its group) and the same for its name
 };
+bool filter_matches(const CaseM::Filter& f, const std::string& name) {
+    bool m = f.strict ? name == f.value : name.find(f.value) != std::string::npos;
+    return f.invert ? !m : m;
+}
+bool selected(const CaseM& c, const TestM& t) {
+    bool g = c.groupFilters.empty(), n = c.nameFilters.empty();
+    for (auto& f : c.groupFilters) if (filter_matches(f, t.group)) g = true;
+    for (auto& f : c.nameFilters) if (filter_matches(f, t.name)) n = true;
+    return g && n;
+}
 
 struct Event {
     enum Kind { SuiteStart, SuiteFinish, TestStart, TestIgnored, TestFailed, TestFinish } kind;
     std::string name;                 // suite or test name
+    bool optional = false;            // SuiteStart/SuiteFinish of a group none of whose tests is selected: an empty suite or nothing at all
     std::string loc, locWithPrefix;   // TestFailed: "file:line" and "TEST failed (tfile:tline): file:line"
     std::string details;              // TestFailed: the failure message
     bool natural = false;             // TestFailed: message built by the framework (STRCMP_EQUAL); details = operand 1, details2 = operand 2
@@ -194,6 +212,25 @@ CaseM decode(Reader& r) {
             c.tests.push_back(tm);
         }
     }
+    // filters, decoded last: values come mostly from the program's own names so that proper subsets are selected
+    for (int which = 0; which < 2; which++) {
+        uint32_t v = r.below(8);
+        uint32_t n = v <= 4 ? 0 : (v <= 6 ? 1 : 2);
+        for (uint32_t i = 0; i < n; i++) {
+            CaseM::Filter f;
+            uint32_t k = r.below(6);   // 0,1 substring; 2,3 strict; 4 inverted; 5 inverted strict
+            f.strict = k == 2 || k == 3 || k == 5; f.invert = k >= 4;
+            const TestM& src = c.tests[r.below((uint32_t)c.tests.size())];
+            const std::string& own = which == 0 ? src.group : src.name;
+            switch (r.below(4)) {
+            default:
+            case 0: case 1: f.value = own; break;                                            // a name of the program
+            case 2: f.value = own.empty() ? own : own.substr(r.below((uint32_t)own.size() > 200 ? 200 : (uint32_t)own.size()), 1 + r.below(3)); break;   // a piece of one
+            case 3: f.value = gen_name(r, 3); break;                                         // most likely matches nothing
+            }
+            (which == 0 ? c.groupFilters : c.nameFilters).push_back(f);
+        }
+    }
     return c;
 }
 
@@ -219,9 +256,21 @@ std::string W(const std::string& line, size_t col) {
 
 // the message sequence the script implies, by the meaning of the run alone
 void expected_events(const CaseM& c, const std::vector<const TestM*>& order, std::vector<Event>& ev, size_t& suites) {
+    bool anySelected = false;
     for (size_t i = 0; i < order.size(); i++) {
         const TestM& t = *order[i];
-        if (i == 0 || order[i - 1]->group != t.group) { Event e; e.kind = Event::SuiteStart; e.name = t.group; ev.push_back(e); suites++; }
+        if (i == 0 || order[i - 1]->group != t.group) {
+            // a suite = a maximal run of equal group names in the registry order (selected or not)
+            anySelected = false;
+            for (size_t j = i; j < order.size() && order[j]->group == t.group; j++) if (selected(c, *order[j])) anySelected = true;
+            Event e; e.kind = Event::SuiteStart; e.name = t.group; e.optional = !anySelected; ev.push_back(e);
+            if (anySelected) suites++;
+        }
+        bool last = i + 1 == order.size() || order[i + 1]->group != t.group;
+        if (!selected(c, t)) {   // a filtered-out test produces no message
+            if (last) { Event e; e.kind = Event::SuiteFinish; e.name = t.group; e.optional = !anySelected; ev.push_back(e); }
+            continue;
+        }
         { Event e; e.kind = Event::TestStart; e.name = t.name; ev.push_back(e); }
         bool executed = !t.ignored || c.runIgnored;
         if (!executed) { Event e; e.kind = Event::TestIgnored; e.name = t.name; ev.push_back(e); }
@@ -238,7 +287,7 @@ void expected_events(const CaseM& c, const std::vector<const TestM*>& order, std
                     if (s.exits) break;
                 }
         { Event e; e.kind = Event::TestFinish; e.name = t.name; ev.push_back(e); }
-        if (i + 1 == order.size() || order[i + 1]->group != t.group) { Event e; e.kind = Event::SuiteFinish; e.name = t.group; ev.push_back(e); }
+        if (last) { Event e; e.kind = Event::SuiteFinish; e.name = t.group; e.optional = !anySelected; ev.push_back(e); }
     }
 }
 
@@ -259,20 +308,28 @@ struct ScriptedTest : Utest {
     void testBody() CPPUTEST_OVERRIDE { run_steps(t->body); }
     void teardown() CPPUTEST_OVERRIDE { run_steps(t->teardown); }
 };
-struct Shell : UtestShell {
+// every shell owns exact-size heap copies of its three strings: equal text never implies equal address
+struct OwnNames {
+    char *g, *n, *f;
+    static char* dup(const std::string& s) { char* p = (char*)malloc(s.size() + 1); memcpy(p, s.c_str(), s.size() + 1); return p; }
+    explicit OwnNames(const TestM* tm) : g(dup(tm->group)), n(dup(tm->name)), f(dup(tm->file)) {}
+    ~OwnNames() { free(g); free(n); free(f); }
+};
+struct Shell : OwnNames, UtestShell {
     const TestM* t;
-    explicit Shell(const TestM* tm) : UtestShell(tm->group.c_str(), tm->name.c_str(), tm->file.c_str(), tm->line), t(tm) {}
+    explicit Shell(const TestM* tm) : OwnNames(tm), UtestShell(g, n, f, tm->line), t(tm) {}
     Utest* createTest() CPPUTEST_OVERRIDE { return new ScriptedTest(t); }
 };
-struct IgnoredShell : IgnoredUtestShell {
+struct IgnoredShell : OwnNames, IgnoredUtestShell {
     const TestM* t;
-    explicit IgnoredShell(const TestM* tm) : IgnoredUtestShell(tm->group.c_str(), tm->name.c_str(), tm->file.c_str(), tm->line), t(tm) {}
+    explicit IgnoredShell(const TestM* tm) : OwnNames(tm), IgnoredUtestShell(g, n, f, tm->line), t(tm) {}
     Utest* createTest() CPPUTEST_OVERRIDE { return new ScriptedTest(t); }
 };
 // sinks of the case being executed (the runner owns and deletes its output object)
 std::string g_out;
 std::vector<std::string> g_messages;                    // the failure texts handed to the output (its input), in order
-std::vector<std::vector<const TestM*>> g_announced;     // per pass: the tests the registry announced, in order
+std::vector<std::vector<const TestM*>> g_announced;     // per pass: the registry's test list (selected or not) when the pass starts
+TestRegistry* g_registry = nullptr;
 
 const TestM* model_of(const UtestShell& test);
 
@@ -283,10 +340,10 @@ struct CapturingTeamCity : TeamCityTestOutput {
         g_messages.push_back(f.getMessage().asCharString());
         TeamCityTestOutput::printFailure(f);
     }
-    void printTestsStarted() CPPUTEST_OVERRIDE { g_announced.emplace_back(); TeamCityTestOutput::printTestsStarted(); }
-    void printCurrentTestStarted(const UtestShell& test) CPPUTEST_OVERRIDE {
-        if (!g_announced.empty()) g_announced.back().push_back(model_of(test));
-        TeamCityTestOutput::printCurrentTestStarted(test);
+    void printTestsStarted() CPPUTEST_OVERRIDE {
+        g_announced.emplace_back();
+        for (UtestShell* t = g_registry ? g_registry->getFirstTest() : nullptr; t; t = t->getNext()) g_announced.back().push_back(model_of(*t));
+        TeamCityTestOutput::printTestsStarted();
     }
 };
 const TestM* model_of(const UtestShell& test) {
@@ -308,9 +365,16 @@ int execute(const CaseM& c) {
         else shells.emplace_back(new Shell(&t));
     }
     TestRegistry reg;
+    g_registry = &reg;
+    struct Unset { ~Unset() { g_registry = nullptr; } } unset;
     for (size_t i = shells.size(); i-- > 0;) reg.addTest(shells[i].get());   // addTest prepends
     if (c.viaRunner) {
         std::vector<std::string> args = {"harness", "-oteamcity"};
+        for (int which = 0; which < 2; which++)
+            for (auto& f : which == 0 ? c.groupFilters : c.nameFilters) {
+                args.push_back(std::string(f.invert ? "-x" : "-") + (f.strict ? "s" : "") + (which == 0 ? "g" : "n"));
+                args.push_back(f.value);
+            }
         if (c.passes > 1) args.push_back("-r" + std::to_string(c.passes));
         if (c.runIgnored) args.push_back("-ri");
         if (c.op[0] == 1) args.push_back("-b");
@@ -324,6 +388,17 @@ int execute(const CaseM& c) {
     }
     CapturingTeamCity out;
     if (c.runIgnored) reg.setRunIgnored();
+    std::vector<std::unique_ptr<TestFilter>> filters;
+    for (int which = 0; which < 2; which++) {
+        TestFilter* head = NULLPTR;
+        for (auto& f : which == 0 ? c.groupFilters : c.nameFilters) {
+            filters.emplace_back(new TestFilter(f.value.c_str()));
+            if (f.strict) filters.back()->strictMatching();
+            if (f.invert) filters.back()->invertMatching();
+            head = filters.back()->add(head);
+        }
+        if (which == 0) reg.setGroupFilters(head); else reg.setNameFilters(head);
+    }
     for (uint32_t p = 0; p < c.passes; p++) {
         if (c.op[p] == 1) reg.reverseTests();
         if (c.op[p] == 2) reg.shuffleTests(c.shuffleSeed + p);
@@ -388,6 +463,9 @@ bool parse_message(const std::string& line, Msg& m, std::string& err, size_t& i)
 
 std::string render(const CaseM& c) {
     std::string o = sfmt("runIgnored=%d passes=%u%s order=%u,%u,%u seed=%u;", c.runIgnored, c.passes, c.viaRunner ? " via CommandLineTestRunner" : "", c.op[0], c.op[1], c.op[2], c.shuffleSeed);
+    for (int which = 0; which < 2; which++)
+        for (auto& f : which == 0 ? c.groupFilters : c.nameFilters)
+            o += sfmt(" %s%s%s \"%s\"", f.invert ? "-x" : "-", f.strict ? "s" : "", which == 0 ? "g" : "n", P(f.value).c_str());
     for (auto& t : c.tests) {
         o += sfmt(" %s(\"%s\", \"%s\" @\"%s\":%u", t.ignored ? "IGNORE_TEST" : "TEST", P(t.group).c_str(), P(t.name).c_str(), P(t.file).c_str(), t.line);
         for (int ph = 0; ph < 2; ph++)
@@ -419,6 +497,7 @@ int run_and_judge(const CaseM& c, bool useKnown, bool& nontrivial) {
     verif::cls(sfmt("passes:%u%s", c.passes, c.viaRunner ? "-via-CommandLineTestRunner" : "").c_str());
     for (auto& pass : announced)
         for (size_t i = 0; i < pass.size(); i++) if (pass[i]->name.empty()) {
+            if (!selected(c, *pass[i])) continue;
             if (i == 0) verif::cls("empty-test-name:first-of-pass");
             if (i + 1 == pass.size()) verif::cls("empty-test-name:last-of-pass");
             if ((i == 0 || pass[i - 1]->group != pass[i]->group) && (i + 1 == pass.size() || pass[i + 1]->group != pass[i]->group)) verif::cls("empty-test-name:only-test-of-suite");
@@ -429,6 +508,15 @@ int run_and_judge(const CaseM& c, bool useKnown, bool& nontrivial) {
         if (sameEdge) verif::cls("pass-ends-and-next-starts-with-same-group");
     }
     for (uint32_t p = 0; p < c.passes; p++) if (c.op[p] && (!c.viaRunner || p == 0)) verif::cls(c.op[p] == 1 ? "order:reversed" : "order:shuffled");
+    if (!c.groupFilters.empty() || !c.nameFilters.empty()) {
+        verif::cls(sfmt("filters:%zu-group-%zu-name", c.groupFilters.size(), c.nameFilters.size()).c_str());
+        size_t sel = 0; for (auto& t : c.tests) if (selected(c, t)) sel++;
+        verif::cls(sel == 0 ? "filters:select-nothing" : (sel == c.tests.size() ? "filters:select-everything" : "filters:select-proper-subset"));
+        bool emptyMid = false, emptyEdge = false;
+        for (size_t i = 0; i < ev.size(); i++) if (ev[i].kind == Event::SuiteStart && ev[i].optional) { if (i == 0 || i + 2 >= ev.size()) emptyEdge = true; else emptyMid = true; }
+        if (emptyMid) verif::cls("filters:whole-group-deselected-in-the-middle");
+        if (emptyEdge) verif::cls("filters:whole-group-deselected-at-start-or-end");
+    }
     bool special = false;
     const char* SPECIAL = "'|[]\r\n";
     for (auto& t : c.tests) {
@@ -481,6 +569,23 @@ int run_and_judge(const CaseM& c, bool useKnown, bool& nontrivial) {
         lineNo++;
         size_t at = line.find("##teamcity[");
         if (at == std::string::npos) continue;   // ordinary console text (the summary at the end of the run)
+        // a group none of whose tests is selected: either an empty suite (start directly followed by finish) or nothing
+        while (next < ev.size() && ev[next].optional) {
+            bool emptyPair = false;
+            if (line.compare(0, 28, "##teamcity[testSuiteStarted ") == 0) {
+                size_t q = pos;   // the next line that holds a message
+                while (q < out.size()) {
+                    size_t e2 = out.find('\n', q);
+                    std::string l2 = out.substr(q, e2 == std::string::npos ? std::string::npos : e2 - q);
+                    if (l2.find("##teamcity[") != std::string::npos) { emptyPair = l2.compare(0, 29, "##teamcity[testSuiteFinished ") == 0; break; }
+                    if (e2 == std::string::npos) break;
+                    q = e2 + 1;
+                }
+            }
+            if (ev[next].kind == Event::SuiteStart && !emptyPair) { next += 2; continue; }   // nothing was printed for it
+            if (ev[next].kind == Event::SuiteStart) verif::cls("deselected-group:printed-as-empty-suite");
+            break;   // judge the pair like any other start / finish
+        }
         const Event* want = next < ev.size() ? &ev[next] : nullptr;
         bool knownHere = want && want->kind == Event::TestFailed && want->knownCondition;
         if (knownHere && useKnown && line.compare(0, 22, "##teamcity[testFailed ") == 0 && verif::known(KEY_FILE)) { next++; continue; }   // known finding: this one message is not decoded
@@ -523,6 +628,7 @@ int run_and_judge(const CaseM& c, bool useKnown, bool& nontrivial) {
 #undef TN
         next++;
     }
+    while (next < ev.size() && ev[next].optional) next++;
     if (next < ev.size()) {
         const Event& w = ev[next];
         const char* sig = (w.kind == Event::SuiteStart || w.kind == Event::SuiteFinish) ? "C20:suite-pairing" : (w.kind == Event::TestIgnored ? "C20:ignored-flag" : (w.kind == Event::TestFailed ? "C20:failure-placement" : "C20:test-pairing"));
